@@ -260,3 +260,8 @@ class PolarsSubsample(Contract):
 
 
 CONTRACTS.append(PolarsSubsample)
+
+# polars container: which core checks see the sub-sample and which the whole parsed frame (post.*_sees_the_*) - shared with C03
+from contracts.C03_polars_container_validate import PolarsContainerValidate  # noqa: E402
+
+CONTRACTS = list(CONTRACTS) + [PolarsContainerValidate]
